@@ -7,7 +7,7 @@ PROPS = [json.loads(l)["id"] for l in open("/verif/properties.jsonl")]
 SCHED_NOTE = ("Trusted base: the model of Go's sync/atomic/context/time/channel primitives in verif/vs (DESIGN §2.2), "
               "sequential consistency for instrumented operations, the source-to-source instrumenter vinstr; small scope "
               "(2-3 threads per role, <=3 items) and a deviation bound (every departure from the fair default schedule "
-              "costs one); results are a coverage statement for the bound completed, not a proof.")
+              "costs one: running another thread, freezing the default thread until nothing else can run, or a non-first ready select case); results are a coverage statement for the bound completed, not a proof.")
 SEQ_NOTE = ("Trusted base: the reference model written in the check (slices/maps), the canonical state key used to merge "
             "histories (argument in the check's package comment), bounded depth / input domain as reported in evidence.")
 
@@ -26,11 +26,11 @@ CHECKS = {
  "C06": dict(cat="model_checking", tech="explicit-state BFS of operation histories vs a reference model (sequential half) + " + SCHED + " with every history checked for linearizability by porcupine (concurrent half)", ref="§4 C06",
              text="(a) Every operation history up to the reported depth of the real Deque agrees with an independent deque model; (b) every recorded history of 2-3 thread programs under every schedule up to the bound is linearizable w.r.t. that model.", note=SEQ_NOTE + " " + SCHED_NOTE),
  "C07": dict(cat="exploration", tech=SCHED, ref="§4 C07",
-             text="All schedules up to the bound of closed programs with 1-2 parked consumers/producers, bursts of enabling operations, Close and cancel; quiescence oracle: no caller parked while its condition holds, everyone released by Close/cancel.", note=SCHED_NOTE),
+             text="All schedules up to the bound of closed programs with 1-2 parked consumers/producers, bursts of enabling operations, Close and cancel, plus mixed programs (up to 4 heterogeneous parked callers incl. parked iterators, both deque ends, hand-over chains, Force pushes); quiescence oracle: no caller parked while its condition holds, everyone released by Close/cancel.", note=SCHED_NOTE),
  "C08": dict(cat="exploration", tech=SCHED, ref="§4 C08",
-             text="All schedules up to the bound of broker programs (5 back-ends x dispatch options x 1-2 publishers x 1-2 messages x 2 subscribers, static/late subscribe/unsubscribe): window delivery exactly once, common order with one worker, never invented or duplicated.", note=SCHED_NOTE),
+             text="All schedules up to the bound of broker programs (5 back-ends x dispatch options x 1-2 publishers x 1-2 messages x 2 subscribers, static/late subscribe/unsubscribe; churn family with 3 subscribers, unsubscribe during dispatch, redundant/foreign/nil Unsubscribe): window delivery exactly once, common order with one worker, never invented or duplicated.", note=SCHED_NOTE),
  "C09": dict(cat="exploration", tech=SCHED, ref="§4 C09",
-             text="All schedules up to the bound of bursts, Stop/cancel races, concurrent Wait, and client calls with cancelled contexts on 4 back-ends: no stall at quiescence, Wait returns, every goroutine exits, broker survives cancelled client calls.", note=SCHED_NOTE),
+             text="All schedules up to the bound of bursts, Stop/cancel/deadline-expiry races, concurrent Wait, client calls with cancelled contexts, and wedged brokers (subscriber never reads, backlog, 2 dispatch workers with buffers) on 4 back-ends: no stall at quiescence, Wait returns, every goroutine exits, broker survives cancelled client calls.", note=SCHED_NOTE),
  "C10": dict(cat="fault_enumeration", tech=SCHED + "; fault matrix {absent,ok,error,panic}^3 x handler x end", ref="§4 C10",
              text="Every cell of the 4x4x4x3x3 lifecycle matrix and 1-3 concurrent Start/Close/Wait callers under every schedule up to the bound: phase counts and order, exactly one successful Start, Wait completeness, Running() false after Wait.", note=SCHED_NOTE),
  "C11": dict(cat="exploration", tech=SCHED, ref="§4 C11",
@@ -38,11 +38,11 @@ CHECKS = {
  "C12": dict(cat="model_checking", tech="exhaustive enumeration of error-expression trees vs an independent constituent model + " + SCHED + " for the Collector", ref="§4 C12",
              text="All error trees up to the reported depth: nil-iff, single identity, errors.Is/As for every constituent, Unwind multiset/order; plus every schedule up to the bound of concurrent Collector Add/Resolve/Len/Iterator programs (contents, nil-iff, race oracle).", note=SEQ_NOTE + " " + SCHED_NOTE),
  "C13": dict(cat="exploration", tech=SCHED + " with a vector-clock happens-before race oracle over instrumented plain accesses", ref="§2.4, §4 C13",
-             text="Every unordered pair of public operations of each concurrency-safe type in each pre-state, two threads, every schedule up to the bound: no two conflicting accesses unordered by happens-before.", note=SCHED_NOTE + " Access instrumentation covers addressable fields, captured locals, assigned package variables, slice/array elements, maps and pointer dereferences of the instrumented packages."),
+             text="Every unordered pair of public operations of each concurrency-safe type (Queue, Deque, their distributors/iterators, Broker in 5 configurations, WaitGroup, Collector, adt.Map/Atomic/Synchronized/Once/Pool, synchronized Set incl. Equal/Extend/Sort with a second set, 21 function wrappers) in each pre-state, two threads, every schedule up to the bound: no two conflicting accesses unordered by happens-before.", note=SCHED_NOTE + " Access instrumentation covers addressable fields, captured locals, assigned package variables, slice/array elements, maps and pointer dereferences of the instrumented packages."),
  "C14": dict(cat="exploration", tech=SCHED, ref="§4 C14",
-             text="All schedules up to the bound of waiters x workers x cancellation x reuse x Launch/DoTimes programs over the real fun.WaitGroup.", note=SCHED_NOTE),
+             text="All schedules up to the bound of waiters x workers x cancellation (own and sibling contexts) x reuse x Launch/DoTimes/StartGroup/Operation.Add/Processor.Add accounting (outstanding work, n in -2..2) x observer programs over the real fun.WaitGroup.", note=SCHED_NOTE),
  "C15": dict(cat="exploration", tech=SCHED + "; Retry scripts and hook orders enumerated exhaustively", ref="§4 C15",
-             text="All schedules up to the bound of 2-3 concurrent callers of every Once/Limit/Lock wrapper, waiter-vs-completion for Launch/Signal/Background/StartGroup, all Retry result scripts up to n+1, hook orders.", note=SCHED_NOTE),
+             text="All schedules up to the bound of 2-4 concurrent callers of every Once/Limit/Lock wrapper, WithLock over one mutex shared by wrappers of different kinds, waiter-vs-completion for Launch/Signal/Background/StartGroup, all Retry result scripts up to n+1, hook orders.", note=SCHED_NOTE),
  "C16": dict(cat="model_checking", tech="explicit-state BFS over operation histories of the real List/Stack vs a sequence model", ref="§4 C16",
              text="Every operation history up to depth 5 (quick) / 7 (thorough) over two lists / stacks with element handles: all traversals, Len, In/Ok, rejected operations, against a slice model.", note=SEQ_NOTE),
  "C17": dict(cat="model_checking", tech="exhaustive input enumeration of sort/IsSorted/Heap vs independent oracle", ref="§4 C17",
